@@ -557,6 +557,17 @@ def rule_terminate(crate, prop, tier):
                     L = mk_len(c, an) if c[3] is not None else None
             o.check(good, who, "progress", "an iteration of the loop can continue without marking a previously unmarked "
                     "vertex (the search may not terminate on a cyclic predecessor vector)", an.blocks[lb]["tspan"])
+    # apart from reading pred[s] for the start vertex (out-of-range start is a documented panic), the walk cannot panic
+    from .panics import panic_sites, discharge_panic
+    for st in panic_sites(an):
+        if discharge_panic(crate, st):
+            o.check(True, who, "no-panic-in-walk", "")
+            continue
+        ev_ = st.ev
+        start_read = st.kind == "index" and ev_["k"] == "call" and len(ev_["args"]) == 2 and ev_["args"][1] == ("arg", 2) and \
+            ev_["args"][0][0] in ("addr", "at") and ev_["args"][0][1] == "A1.pred"
+        o.check(start_read, who, "no-panic-in-walk", "the walk along the predecessor links can panic (%s): for in-range vectors "
+                "search_by must terminate with Some or None" % st.kind, st.span)
     # search delegates to search_by
     s = method_of(crate, S, "search")
     if o.check(s is not None, who, "search-exists", "search not found"):
